@@ -18,11 +18,16 @@ RULE = ('For each of a set of valid .skf files (64- and 128-bit, 1..12 samples, 
         '(`ska nk --full-info`), all files through the library load used by every subcommand (harness, 64 bits tried first then '
         '128, as the command line does; sharded into sub-processes with an address-space limit so that an allocation failure on '
         'a corrupted length only ends its shard and is recorded as a rejection).  Each damaged copy must be rejected or decode '
-        'to exactly the original content (k, strand mode, names, rows).  A random sample of damaged copies additionally goes '
-        'through align, map, distance, weed, delete, merge and lo: each must fail or give the original\'s result.  Thorough '
-        'tier: the enumeration of the files up to 12 kB is repeated on a harness built with AddressSanitizer (any report is a violation); `ska delete`/`ska weed` overwriting in place are killed (SIGKILL) or given ENOSPC at every write system call '
-        '(strace fault injection); the file left behind must be a prefix of the complete output and must be rejected or decode '
-        'to that output.  Non-trivial: a damaged copy that differs from the original bytes; distinct = (file, damage).')
+        'to exactly the original content (k, strand mode, names, rows, and the whole re-serialised object).  A random sample of damaged copies (cuts at every chunk '
+        'boundary included; a third of the copies under a bare name next to a valid, different <name>.skf) additionally goes through align, map, distance, weed '
+        '(with and without weed file, with --ambig-mask), delete, merge (as first or second and as third argument after a larger file), lo, nk and plain nk: each must fail or '
+        'give the result of the original; a command that accepts its input and writes an output that cannot be read back has produced a different result.  A 1.3 MB file '
+        'rewritten by an in-place delete is damaged at every chunk boundary, over its last 256 bytes completely and at a random sample.  In-place rewrites (delete, weed, and '
+        '`weed --ambig-mask` on a several-frame file with a few ambiguous bases, which keeps the frame layout) are killed (SIGKILL) or given ENOSPC at every write system call '
+        '(strace fault injection): the file left behind must be rejected or decode to the complete output (or be the untouched original).  The release binary also runs '
+        'under valgrind memcheck on intact and damaged copies of the small files (any report is a violation).  Thorough tier: the enumeration of the files up to 12 kB is repeated '
+        'on a harness built with AddressSanitizer, more crash files and operations, a 90 000-row and a 950 000-row file with targeted damage.  '
+        'Non-trivial: a damaged copy that differs from the original bytes; distinct = (file, damage).')
 ASSUMPTIONS = ['content = k, strand mode, sample names and rows; ska_version and k_bits are container metadata',
                'single faults only: one truncation or one flipped bit per copy',
                'an abort (allocation failure) is a rejection with an error, counted separately']
